@@ -4,6 +4,12 @@
 //	cls T              -> <kind> size=<Sizeof> align=<Alignof> n=<elementTypesCount> off2=<offset of member 1 of {T1,T2} | ->
 //	sig R P...         -> ret=<..> params=<..>          (rewritten signature: transformFuncType)
 //	cls64 T | clsret64 T -> the same classification by the arm64 classifier (TypeInfoArm64): <kind> size= align= n=
+//	xform OPT FILE.ll  -> parse the textual IR, run the REAL TransformModule (ModeAllFunc, optimize = OPT) and describe, for
+//	                      every function caller_* of the module, the call to its callee cf_*: which object the hidden
+//	                      result pointer (sret) and the first by-value aggregate pointer (byval) refer to:
+//	                      `name sret=<temp|none|NAME> byval=<temp|none|NAME>;...`  temp = an alloca made by the transformer that is
+//	                      private to this call (passed once, address neither stored nor handed to another function);
+//	                      NAME = the IR name of the object
 //
 // Types: b h w q p f d = i8 i16 i32 i64 ptr float double; {..} struct; [N T] array; v = void (result only).
 // kind = void | direct | coerce <ty> | coerce2 <ty> <ty> | memory ; ty = iN | ptr | float | double | v2f32
@@ -135,6 +141,126 @@ func leaves(ctx llvm.Context, t llvm.Type, out *[]string) {
 	default:
 		*out = append(*out, tyName(ctx, t))
 	}
+}
+
+
+// ---- call-site description (xform)
+
+func stripCasts(v llvm.Value) llvm.Value {
+	for {
+		if c := v.IsABitCastInst(); !c.IsNil() {
+			v = c.Operand(0)
+			continue
+		}
+		return v
+	}
+}
+
+// the allocas the generated contexts declare themselves; every other alloca was made by the transformer
+var ownAllocas = map[string]bool{"loc": true, "other": true, "src": true}
+
+// describePtr classifies the object a pointer operand of `call` refers to: "temp" iff it is an alloca made by the
+// transformer that is private to this call — it is passed to this call exactly once, its address is not stored anywhere and
+// not handed to any other function (LLVM intrinsics such as llvm.memcpy / lifetime markers aside); loads from it and stores
+// into it are fine.  Otherwise the IR name of the object.
+func describePtr(call llvm.Value, v llvm.Value) string {
+	v = stripCasts(v)
+	if a := v.IsAAllocaInst(); !a.IsNil() && !ownAllocas[a.Name()] {
+		ncall, private := 0, true
+		var walk func(x llvm.Value)
+		walk = func(x llvm.Value) {
+			for u := x.FirstUse(); !u.IsNil(); u = u.NextUse() {
+				usr := u.User()
+				switch {
+				case usr == call:
+					ncall++
+				case !usr.IsABitCastInst().IsNil() || !usr.IsAGetElementPtrInst().IsNil():
+					walk(usr)
+				case !usr.IsALoadInst().IsNil():
+				case !usr.IsAStoreInst().IsNil():
+					if usr.Operand(0) == x { // the address itself is stored: it escapes
+						private = false
+					}
+				case !usr.IsACallInst().IsNil():
+					if !strings.HasPrefix(usr.CalledValue().Name(), "llvm.") {
+						private = false
+					}
+				default:
+					private = false
+				}
+			}
+		}
+		walk(a)
+		if private && ncall == 1 {
+			return "temp"
+		}
+	}
+	if n := v.Name(); n != "" {
+		return n
+	}
+	return "unnamed"
+}
+
+func xform(ctx llvm.Context, prog llssa.Program, optimize bool, path string) (string, error) {
+	buf, err := llvm.NewMemoryBufferFromFile(path)
+	if err != nil {
+		return "", err
+	}
+	m, err := (&ctx).ParseIR(buf)
+	if err != nil {
+		return "", err
+	}
+	defer m.Dispose()
+	tr := cabi.NewTransformer(prog, "", "", cabi.ModeAllFunc, optimize)
+	// what the signature rewriting says about every callee, before the module is rewritten
+	type pre struct {
+		sret  bool
+		byval int // 0-based index (in the rewritten parameter list) of the first byval parameter, -1 if none
+	}
+	info := map[string]pre{}
+	for fn := m.FirstFunction(); !fn.IsNil(); fn = llvm.NextFunction(fn) {
+		if strings.HasPrefix(fn.Name(), "cf_") {
+			_, byval, sret, _ := tr.VerifFuncType(ctx, fn.GlobalValueType())
+			first := -1
+			for k := range byval {
+				if first < 0 || k-1 < first {
+					first = k - 1
+				}
+			}
+			info[fn.Name()] = pre{sret, first}
+		}
+	}
+	tr.TransformModule(path, m)
+	var out []string
+	for fn := m.FirstFunction(); !fn.IsNil(); fn = llvm.NextFunction(fn) {
+		if !strings.HasPrefix(fn.Name(), "caller_") {
+			continue
+		}
+		desc := "nocall"
+		for bb := fn.FirstBasicBlock(); !bb.IsNil(); bb = llvm.NextBasicBlock(bb) {
+			for in := bb.FirstInstruction(); !in.IsNil(); in = llvm.NextInstruction(in) {
+				call := in.IsACallInst()
+				if call.IsNil() {
+					continue
+				}
+				callee := call.CalledValue()
+				pi, ok := info[callee.Name()]
+				if !ok {
+					continue
+				}
+				sr, bv := "none", "none"
+				if pi.sret {
+					sr = describePtr(call, call.Operand(0))
+				}
+				if pi.byval >= 0 {
+					bv = describePtr(call, call.Operand(pi.byval))
+				}
+				desc = "sret=" + sr + " byval=" + bv
+			}
+		}
+		out = append(out, fn.Name()+" "+desc)
+	}
+	return strings.Join(out, ";"), nil
 }
 
 func main() {
@@ -277,6 +403,17 @@ func main() {
 				ps = []string{"-"}
 			}
 			fmt.Fprintf(out, "ret=%s params=%s\n", ret, strings.Join(ps, ","))
+		case "xform":
+			if len(f) != 3 {
+				fmt.Fprintln(out, "bad-op")
+				continue
+			}
+			r, err := xform(ctx, prog, f[1] == "1", f[2])
+			if err != nil {
+				fmt.Fprintln(out, "error", strings.ReplaceAll(err.Error(), "\n", " "))
+				continue
+			}
+			fmt.Fprintln(out, r)
 		default:
 			fmt.Fprintln(out, "bad-op")
 		}
